@@ -571,6 +571,37 @@ def manifest():
         return {}
 
 
+KINDS = ["KString", "KStringIter", "KUpvalue", "KFunction", "KNative", "KClosure", "KClass", "KInstance", "KBoundMethod",
+         "KBoundNative", "KVec", "KVecIter", "KTuple", "KTupleIter", "KRange", "KRangeIter", "KHashMap", "KModule", "KFiber", "KChunk"]
+ROLES = ["RElem", "RKey", "RValue", "RClass", "RSuperclass", "RMetaclass", "RMethod", "RMethodName", "RName", "RField",
+         "RFieldName", "RReceiver", "RBoundFn", "RUpvalue", "RClosedValue", "ROpenSlot", "RNext", "RFunction", "RChunk",
+         "RConstant", "RConstKey", "RModule", "RModulePath", "RAttr", "RAttrName", "RIterable", "RStack", "RFrameClosure",
+         "RCaller", "RReturnValue", "ROpenUpvalues", "RPath"]
+
+
+def table_facts():
+    """decided by coqc on the regenerated tables (gen/GcTables.vo is built even when props/C01.v no longer is):
+    uncovered pairs (held, not marked, not pinned), pairs traced by the reference but no longer by `mark`,
+    pairs where `blacken` re-greys"""
+    pl = "(fun l => show_list show_N (flat_map (fun p => [N_of_kind (fst p); N_of_role (snd p)]) l))"
+    terms = ["%s (uncovered holds_gen marks_gen pinned_ref)" % pl,
+             "%s (table_pairs (fun k r => marks_ref k r && negb (marks_gen k r)))" % pl,
+             "%s (table_pairs blackens_mark_gen)" % pl,
+             "%s (table_pairs (fun k r => (blackens_black_gen k r || blackens_mark_gen k r) && negb (marks_gen k r)))" % pl]
+    try:
+        vals = yvlib.coq_eval(["YV:Show", "YV:Heap", "YV:HeapTablesRef", "YV:CollectExt", "YVGen:GcTables"], terms, tag="C01tables",
+                              preamble="Open Scope string_scope.\nOpen Scope bool_scope.")
+    except Exception:
+        vals = [None] * 4
+
+    def dec(v):
+        if v is None:
+            return None
+        ns = [int(x) for x in re.findall(r"\d+", v)]
+        return [(KINDS[ns[i]], ROLES[ns[i + 1]]) for i in range(0, len(ns) - 1, 2)]
+    return {"uncovered": dec(vals[0]), "dropped_from_mark": dec(vals[1]), "regrey": dec(vals[2]), "blacken_only": dec(vals[3])}
+
+
 def tree_state(man):
     """which of the pending repairs the translator sees in the CURRENT sources"""
     marks = man.get("marks", {})
@@ -623,6 +654,14 @@ def run(ctx):
         ctx.notes.append("a repair has landed (or was reverted): edit the SWITCH BLOCK of coq/props/C01.v as described in notes/C01.md "
                          "(expected open pairs %s, regrey variant %s)" % (want_pairs, "REPAIRED" if st["receiver_blacken"] else "UNREPAIRED"))
 
+    facts = table_facts()
+    ctx.cov["table_facts"] = facts
+    if facts["uncovered"] is not None:
+        extra = [p for p in facts["uncovered"] if p not in [tuple(x) for x in sw["open_pairs"]]]
+        if extra or facts["dropped_from_mark"]:
+            ctx.broken.append("tables regenerated from the sources: held but neither traced by `mark` nor pinned: %s; traced by the "
+                              "reference transcription but no longer by `mark`: %s" % (extra, facts["dropped_from_mark"]))
+
     # (b) collector algorithm on snapshots
     progs = list(SNAP_PROGRAMS)
     rs = random_snapshot_programs(rng, 12 if quick else 150)
@@ -647,6 +686,7 @@ def finish(ctx, plist, nontriv, failed, nsnap, nsnap_nontriv):
             seen.setdefault(k, v)
         else:
             others.append(v)
+    others.sort(key=lambda v: (v.get("probe_tag") in ("random", "pair", "snapshot"), len(v.get("input", ""))))
     ctx.violations[:] = list(seen.values()) + others[:5]
     roles = sorted({(p["tag"], p["role"]) for p in plist})
     ctx.cov.update({
@@ -691,15 +731,13 @@ def search(ctx):
         for s, tag in STRUCT_TAGS.items():
             if re.search(r"\b%s\b" % s, t):
                 tags.add(tag)
-    # table-level: which held roles lost their tracing (compare with the switch block's open list)
+    # table-level: which held roles lost their tracing
+    facts = ctx.cov.get("table_facts") or table_facts()
     open_pairs = set(switch_state()["open_pairs"])
-    holds, marks = man.get("holds", {}), man.get("marks", {})
-    pinned_like = {"RClass", "RName", "RMethodName", "RFieldName", "RAttrName", "RPath", "RModulePath", "RModule", "RConstKey"}
-    for k, rs in holds.items():
-        for r in rs:
-            if r not in marks.get(k, []) and (k, r) not in open_pairs and not (r in pinned_like and not (k in ("KInstance", "KVec", "KTuple", "KHashMap", "KRange") and r == "RClass")):
-                tags.add(ROLE_TAGS.get(r, "elem"))
-                ctx.notes.append("search: (%s, %s) is held but not traced" % (k, r))
+    for k, r in (facts.get("uncovered") or []) + (facts.get("dropped_from_mark") or []) + (facts.get("regrey") or []):
+        if (k, r) not in open_pairs:
+            tags.add(ROLE_TAGS.get(r, "elem"))
+            ctx.notes.append("search: table entry (%s, %s) -> probes tagged '%s' first" % (k, r, ROLE_TAGS.get(r, "elem")))
     allp = probes()
     first = [p for p in allp if p["tag"] in tags]
     if first:
